@@ -1,11 +1,374 @@
 package main
 
-import "verifharness/hlib"
+import (
+	"bytes"
+	"context"
+	"errors"
+	"fmt"
+	"io"
+	"net/http"
+	"os"
+	"path/filepath"
+	"sync"
 
-// entry 2 (real blobserver origins): filled in below
-type c33server struct{}
+	"github.com/andres-erbsen/clock"
+	"github.com/uber-go/tally"
+	"github.com/uber/kraken/core"
+	"github.com/uber/kraken/lib/backend"
+	"github.com/uber/kraken/lib/backend/backenderrors"
+	"github.com/uber/kraken/lib/blobrefresh"
+	"github.com/uber/kraken/lib/hashring"
+	"github.com/uber/kraken/lib/healthcheck"
+	"github.com/uber/kraken/lib/hostlist"
+	"github.com/uber/kraken/lib/metainfogen"
+	"github.com/uber/kraken/lib/store"
+	"github.com/uber/kraken/origin/blobclient"
+	"github.com/uber/kraken/origin/blobserver"
+	"verifharness/hlib"
+)
 
-func newC33server(ctx *hlib.Ctx) *c33server            { return &c33server{} }
-func (s *c33server) run(c *c33case, idx int) c33out   { return c33out{incon: true} }
-func (s *c33server) close()                           {}
-func c33addServerCases(ctx *hlib.Ctx, r *hlib.Rng, add func(c c33case)) {}
+// entry 2: every origin is a real blobserver.Server (real chi routes, real replicateToRemote
+// handler, real CAStore, real blobrefresh.Refresher).  Scripted are only the things the handler
+// looks at: is the blob in the origin's cache, what does the storage backend say when the origin
+// tries to fetch it, and what does the remote cluster say when the origin uploads to it.
+
+// c33h is the state an origin is put in before a replicate request reaches its handler.
+type c33h struct {
+	cache   int // 0 CPresent, 1 CAbsent
+	refresh int // 0 FStarted, 1 FPending, 2 FNotFound, 4 FOther          (cache absent)
+	upload  int // 0 UOk, 1 UFail, 2 UNoProvider                           (cache present)
+}
+
+func (h *c33h) coq() string {
+	return fmt.Sprintf("mkh %s %s %s",
+		[]string{"CPresent", "CAbsent"}[h.cache],
+		[]string{"FStarted", "FPending", "FNotFound", "FBusy", "FOther"}[h.refresh],
+		[]string{"UOk", "UFail", "UNoProvider"}[h.upload])
+}
+
+// expected status (generator guidance only)
+func (h *c33h) code() int {
+	if h.cache == 1 {
+		switch h.refresh {
+		case 0, 1:
+			return 202
+		case 2:
+			return 404
+		default:
+			return 500
+		}
+	}
+	if h.upload == 0 {
+		return 200
+	}
+	return 500
+}
+
+// ---- scripted storage backend of one origin
+
+type c33backend struct {
+	mu      sync.Mutex
+	stat    int // 0 ok, 2 not found, 4 error
+	size    int64
+	release chan struct{} // closed at the end of the case: blocked downloads fail
+	active  sync.WaitGroup
+}
+
+func (b *c33backend) Stat(namespace, name string) (*core.BlobInfo, error) {
+	b.mu.Lock()
+	defer b.mu.Unlock()
+	switch b.stat {
+	case 2:
+		return nil, backenderrors.ErrBlobNotFound
+	case 4:
+		return nil, errors.New("c33: storage backend unavailable")
+	}
+	return core.NewBlobInfo(b.size), nil
+}
+
+// Download: the blob is "still being fetched" for as long as the case lasts
+func (b *c33backend) Download(namespace, name string, dst io.Writer) error {
+	b.mu.Lock()
+	ch := b.release
+	b.mu.Unlock()
+	<-ch
+	return errors.New("c33: download abandoned at the end of the case")
+}
+
+func (b *c33backend) Upload(namespace, name string, src io.Reader) error { return errors.New("unused") }
+func (b *c33backend) List(prefix string, opts ...backend.ListOption) (*backend.ListResult, error) {
+	return nil, errors.New("unused")
+}
+func (b *c33backend) Close() error { return nil }
+
+// ---- scripted remote cluster of one origin
+
+type c33remote struct {
+	blobclient.ClusterClient // nil: any other method panics
+	p                        *c33provider
+}
+
+type c33provider struct {
+	mu       sync.Mutex
+	mode     int // 0 upload ok, 1 upload fails, 2 no provider
+	wantDNS  string
+	wantNS   string
+	wantD    core.Digest
+	wantBlob []byte
+	uploaded bool // a correct, accepted upload happened since the last arm()
+	wrong    bool // an upload / provide with the wrong remote, namespace, digest, size or bytes
+}
+
+func (p *c33provider) Provide(dns string) (blobclient.ClusterClient, error) {
+	p.mu.Lock()
+	defer p.mu.Unlock()
+	if dns != p.wantDNS {
+		p.wrong = true
+	}
+	if p.mode == 2 {
+		return nil, errors.New("c33: cannot resolve remote cluster")
+	}
+	return &c33remote{p: p}, nil
+}
+
+func (r *c33remote) UploadBlob(ctx context.Context, ns string, d core.Digest, blob io.ReadSeeker, size uint64) error {
+	p := r.p
+	got, err := io.ReadAll(blob)
+	p.mu.Lock()
+	defer p.mu.Unlock()
+	if err != nil || ns != p.wantNS || d != p.wantD || size != uint64(len(p.wantBlob)) || !bytes.Equal(got, p.wantBlob) {
+		p.wrong = true
+	}
+	if p.mode == 1 {
+		return errors.New("c33: remote cluster refused the blob")
+	}
+	p.uploaded = !p.wrong
+	return nil
+}
+
+// ---- one real origin
+
+type c33blobsrv struct {
+	h        http.Handler
+	cas      *store.CAStore
+	be       *c33backend
+	prov     *c33provider
+	dir      string
+	started  map[string]bool // digests for which a fetch from the backend is in flight
+	releases []chan struct{}
+}
+
+func newC33blobsrvs(ctx *hlib.Ctx, worker int) []*c33blobsrv {
+	var out []*c33blobsrv
+	for i := 0; i < c33maxOrigins; i++ {
+		dir := filepath.Join(ctx.Tmp, fmt.Sprintf("w%d-origin%d", worker, i))
+		for _, sub := range []string{"upload", "cache"} {
+			if err := os.MkdirAll(filepath.Join(dir, sub), 0o755); err != nil {
+				panic(err)
+			}
+		}
+		cas, err := store.NewCAStore(store.CAStoreConfig{
+			UploadDir: filepath.Join(dir, "upload"), CacheDir: filepath.Join(dir, "cache")}, tally.NoopScope)
+		if err != nil {
+			panic(err)
+		}
+		be := &c33backend{release: make(chan struct{})}
+		bm := backend.ManagerFixture()
+		if err := bm.Register(".*", be, false); err != nil {
+			panic(err)
+		}
+		mg := metainfogen.Fixture(cas, 4)
+		br := blobrefresh.New(blobrefresh.Config{}, tally.NoopScope, cas, bm, mg)
+		addr := fmt.Sprintf("c33-origin%d:80", i)
+		ring := hashring.New(hashring.Config{MaxReplica: 1}, hostlist.Fixture(addr), healthcheck.IdentityFilter{}, tally.NoopScope)
+		prov := &c33provider{}
+		s, err := blobserver.New(blobserver.Config{}, tally.NoopScope, clock.New(), addr, ring, cas,
+			blobclient.NewProvider(), prov, core.PeerContextFixture(), bm, br, mg, nil)
+		if err != nil {
+			panic(err)
+		}
+		out = append(out, &c33blobsrv{h: s.Handler(), cas: cas, be: be, prov: prov, dir: dir, started: map[string]bool{}})
+	}
+	return out
+}
+
+func (b *c33blobsrv) close() {
+	b.endCase()
+	b.cas.Close()
+	os.RemoveAll(b.dir)
+}
+
+// endCase lets every blocked backend download of the finished case fail
+func (b *c33blobsrv) endCase() {
+	b.be.mu.Lock()
+	close(b.be.release)
+	b.be.release = make(chan struct{})
+	b.be.mu.Unlock()
+	b.started = map[string]bool{}
+}
+
+type c33statusWriter struct {
+	http.ResponseWriter
+	code int
+}
+
+func (w *c33statusWriter) WriteHeader(c int) {
+	if w.code == 0 {
+		w.code = c
+	}
+	w.ResponseWriter.WriteHeader(c)
+}
+
+func (w *c33statusWriter) Write(p []byte) (int, error) {
+	if w.code == 0 {
+		w.code = 200
+	}
+	return w.ResponseWriter.Write(p)
+}
+
+// serve puts the origin in state h, lets the REAL handler answer the request and records the
+// status it wrote.
+func (b *c33blobsrv) serve(w http.ResponseWriter, q *http.Request, rec *c33rec, d core.Digest, h *c33h, record func(c33resp)) {
+	rec.mu.Lock()
+	idx, tag, remote := rec.idx, rec.tag, rec.remote
+	var content []byte
+	for id := 0; id < 8; id++ {
+		if c33depDigest(idx, id) == d {
+			content = c33depContent(idx, id)
+		}
+	}
+	rec.mu.Unlock()
+	if content == nil {
+		rec.badLocked(12)
+		w.WriteHeader(500)
+		return
+	}
+	// cache
+	if h.cache == 0 {
+		if _, err := b.cas.GetCacheFileStat(d.Hex()); err != nil {
+			if err := b.cas.CreateCacheFile(d.Hex(), bytes.NewReader(content)); err != nil {
+				panic(fmt.Sprintf("c33: cannot store blob: %s", err))
+			}
+		}
+	} else {
+		if err := b.cas.DeleteCacheFile(d.Hex()); err != nil && !os.IsNotExist(err) {
+			panic(fmt.Sprintf("c33: cannot delete blob: %s", err))
+		}
+	}
+	// storage backend
+	b.be.mu.Lock()
+	b.be.size = int64(len(content))
+	b.be.stat = 0
+	if h.cache == 1 && (h.refresh == 2 || h.refresh == 4) {
+		b.be.stat = h.refresh
+	}
+	b.be.mu.Unlock()
+	if h.cache == 1 && h.refresh == 1 && !b.started[d.Hex()] {
+		panic("c33: generator asked for a pending fetch that was never started")
+	}
+	if h.cache == 1 && h.refresh <= 1 {
+		b.started[d.Hex()] = true
+	}
+	// remote cluster
+	b.prov.mu.Lock()
+	b.prov.mode = h.upload
+	b.prov.wantDNS, b.prov.wantNS, b.prov.wantD, b.prov.wantBlob = remote, tag, d, content
+	b.prov.uploaded, b.prov.wrong = false, false
+	b.prov.mu.Unlock()
+
+	sw := &c33statusWriter{ResponseWriter: w}
+	b.h.ServeHTTP(sw, q)
+	if sw.code == 0 {
+		sw.code = 200 // net/http writes 200 when the handler returns without writing
+	}
+	record(c33resp{code: sw.code})
+
+	b.prov.mu.Lock()
+	uploaded, wrong := b.prov.uploaded, b.prov.wrong
+	b.prov.mu.Unlock()
+	if wrong {
+		rec.badLocked(11) // the origin talked to the wrong cluster or sent the wrong blob
+	}
+	if sw.code == 200 && !uploaded {
+		rec.badLocked(10) // 200 although the remote cluster did not accept the blob
+	}
+}
+
+// ---- cases
+
+func hP(upload int) c33resp  { return c33resp{h: &c33h{cache: 0, upload: upload}} }
+func hA(refresh int) c33resp { return c33resp{h: &c33h{cache: 1, refresh: refresh}} }
+
+func c33srvOrigin(script ...c33resp) c33origin {
+	return c33origin{script: script, budget: c33bigBudget}
+}
+
+func c33addServerCases(ctx *hlib.Ctx, r *hlib.Rng, add func(c c33case)) {
+	ok := func(id int) c33dep {
+		return c33dep{id: id, resolve: true, origins: []c33origin{c33srvOrigin(hP(0))}}
+	}
+	e := func(kind string, deps []c33dep, put c33resp) {
+		add(c33case{kind: "server-" + kind, entry: 2, has: rc(404), origin: rc(200), deps: deps, put: put})
+	}
+	one := func(sc ...c33resp) c33dep {
+		return c33dep{id: 1, resolve: true, origins: []c33origin{c33srvOrigin(sc...), c33srvOrigin(hP(0))}}
+	}
+	e("cached", []c33dep{ok(1), ok(2)}, rc(200))
+	e("fetch-then-cached", []c33dep{one(hA(0), hP(0)), ok(2)}, rc(200))
+	e("fetch-pending-cached", []c33dep{ok(2), one(hA(0), hA(1), hP(0))}, rc(200))
+	e("not-in-backend", []c33dep{one(hA(2)), ok(2)}, rc(200))
+	e("backend-down-next-origin", []c33dep{one(hA(4)), ok(2)}, rc(200))
+	e("upload-fails-next-origin", []c33dep{one(hP(1)), ok(2)}, rc(200))
+	e("no-provider-next-origin", []c33dep{one(hP(2)), ok(2)}, rc(200))
+	e("fetch-then-upload-fails", []c33dep{one(hA(0), hP(1)), ok(2)}, rc(200))
+	e("fetch-then-gone", []c33dep{one(hA(0)), ok(2)}, rc(200))
+	e("fetch-then-not-found", []c33dep{one(hA(0), hA(2)), ok(2)}, rc(200))
+	e("all-fail", []c33dep{ok(2), {id: 1, resolve: true, origins: []c33origin{c33srvOrigin(hP(1)), c33srvOrigin(hA(4)), c33srvOrigin(hP(2))}}, ok(3)}, rc(200))
+	e("putfails", []c33dep{ok(1)}, rc(500))
+	n := ctx.N / 6
+	if ctx.Tier == "thorough" {
+		n = ctx.N / 8
+	}
+	for i := 0; i < n; i++ {
+		c := c33case{kind: "server-random", entry: 2, has: rc(404), origin: rc(200), put: rc(200)}
+		if r.Chance(10) {
+			c.put = rc(503)
+		}
+		nd := r.Range(1, 3)
+		left202 := 2
+		for j := 0; j < nd; j++ {
+			de := c33dep{id: j + 1, resolve: true}
+			no := r.Range(1, 3)
+			for o := 0; o < no; o++ {
+				var sc []c33resp
+				started := false
+				for k := r.Range(1, 3); k > 0; k-- {
+					q := r.Intn(100)
+					switch {
+					case q < 30 && left202 > 0:
+						left202--
+						if started {
+							sc = append(sc, hA(1))
+						} else {
+							sc = append(sc, hA(0))
+						}
+						started = true
+					case q < 75:
+						sc = append(sc, hP(0))
+					case q < 82:
+						sc = append(sc, hP(1))
+					case q < 87:
+						sc = append(sc, hP(2))
+					case q < 93:
+						sc = append(sc, hA(2))
+					default:
+						sc = append(sc, hA(4))
+					}
+				}
+				de.origins = append(de.origins, c33srvOrigin(sc...))
+			}
+			c.deps = append(c.deps, de)
+		}
+		add(c)
+	}
+}
